@@ -1148,7 +1148,7 @@ class GAM(Core, MetaTermMixin):
 
         r2 = OrderedDict()
         r2['explained_deviance'] = 1.0 - full_d.sum() / null_d.sum()
-        r2['McFadden'] = full_ll / null_ll
+        r2['McFadden'] = 1.0 - full_ll / null_ll
         r2['McFadden_adj'] = 1.0 - (full_ll - self.statistics_['edof']) / null_ll
 
         return r2
